@@ -3,6 +3,8 @@
 // Events:  [1 w] Lock(ctx, write=w) in a new actor   [2 w] TryLock(w) in a new actor
 //          [3 i] let actor i run its next critical section (it is parked at a HoldLock gate)
 //          [4 i] cancel the context of Lock actor i   [5 i] call the release function of actor i (new actor)
+//          [6 w] Locker.Lock on the write (w=1, Locker()) / read (w=0, RLocker()) sync.Locker of the lock, in a new actor
+//          [7 w] Locker.Unlock on that locker, in a new actor (9 = it panicked: unlock of an unlocked locker)
 // Observation after every event: one status code per actor
 //          1 at a gate, 2 blocked inside Lock, 3 returned ok, 4 returned Canceled, 5 TryLock false, 6 release() returned
 package csyncx
@@ -11,6 +13,7 @@ import (
 	"context"
 	"fmt"
 	"math/rand/v2"
+	"sync"
 	"testing"
 	"testing/synctest"
 
@@ -21,25 +24,34 @@ import (
 )
 
 const (
-	kLock = 1
-	kTry  = 2
-	kRel  = 3
+	kLock   = 1
+	kTry    = 2
+	kRel    = 3
+	kLocker = 4
 )
 
 type lockAPI interface {
 	Lock(ctx context.Context, write bool) (func(), error)
 	TryLock(write bool) (func(), bool)
+	Locker(write bool) sync.Locker
 }
 
 type mutexAPI struct{ m csync.Mutex }
 
 func (m *mutexAPI) Lock(ctx context.Context, _ bool) (func(), error) { return m.m.Lock(ctx) }
 func (m *mutexAPI) TryLock(_ bool) (func(), bool)                    { return m.m.TryLock() }
+func (m *mutexAPI) Locker(_ bool) sync.Locker                        { return m.m.Locker() }
 
 type rwAPI struct{ m csync.RWMutex }
 
 func (m *rwAPI) Lock(ctx context.Context, w bool) (func(), error) { return m.m.Lock(ctx, w) }
 func (m *rwAPI) TryLock(w bool) (func(), bool)                    { return m.m.TryLock(w) }
+func (m *rwAPI) Locker(w bool) sync.Locker {
+	if w {
+		return m.m.Locker()
+	}
+	return m.m.RLocker()
+}
 
 type adata struct {
 	cancel    context.CancelFunc
@@ -54,6 +66,9 @@ type sys struct {
 	w    *hist.W
 	rw   bool
 	nrel int
+	// the two sync.Locker objects (write, read) and how many grants each holds, as the harness sees it
+	lockers [2]sync.Locker
+	held    [2]int
 }
 
 func newSys(w *hist.W, rw bool) *sys {
@@ -63,6 +78,8 @@ func newSys(w *hist.W, rw bool) *sys {
 	} else {
 		s.l = &mutexAPI{}
 	}
+	s.lockers[1] = s.l.Locker(true)
+	s.lockers[0] = s.l.Locker(false)
 	broadcast.VerifHook = s.c.HookFor("broadcast", []int{0, 2}, []int{1, 3})
 	return s
 }
@@ -146,6 +163,34 @@ func (s *sys) exec(ev []uint64) (obs []uint64, ok bool) {
 			a.Res = 6
 		})
 		synctest.Wait()
+	case 6:
+		w := ev[1] & 1
+		if !s.rw {
+			w = 1
+		}
+		ev[1] = w
+		lk := s.lockers[w]
+		a := s.c.NewActor(kLocker)
+		a.Data = &adata{write: w == 1}
+		s.c.Go(a, func(a *ctl.Actor) {
+			lk.Lock()
+			a.Res = 3
+		})
+		synctest.Wait()
+	case 7:
+		w := ev[1] & 1
+		if !s.rw {
+			w = 1
+		}
+		ev[1] = w
+		lk := s.lockers[w]
+		a := s.c.NewActor(kRel)
+		s.nrel++
+		s.c.Go(a, func(a *ctl.Actor) {
+			lk.Unlock()
+			a.Res = 6
+		})
+		synctest.Wait()
 	default:
 		return nil, false
 	}
@@ -162,7 +207,7 @@ func (s *sys) gen(r *rand.Rand, maxActs int) []uint64 {
 		if a.Kind == kLock && !a.Done() && !a.Data.(*adata).cancelled {
 			cancellable = append(cancellable, i)
 		}
-		if a.Done() && a.Res == 3 {
+		if a.Done() && a.Res == 3 && a.Kind != kLocker {
 			granted = append(granted, i)
 		}
 	}
@@ -181,6 +226,15 @@ func (s *sys) gen(r *rand.Rand, maxActs int) []uint64 {
 			return []uint64{3, uint64(gates[r.IntN(len(gates))])}
 		case x < 76 && len(cancellable) > 0:
 			return []uint64{4, uint64(cancellable[r.IntN(len(cancellable))])}
+		case x >= 94 && len(s.c.Acts) < maxActs+4:
+			// Locker.Unlock: mostly when the locker holds something, sometimes on an unlocked locker (must panic)
+			lw := uint64(r.IntN(2))
+			if !s.rw {
+				lw = 1
+			}
+			return []uint64{7, lw}
+		case x >= 88 && x < 94 && len(s.c.Acts) < maxActs:
+			return []uint64{6, wr}
 		case x >= 76 && len(granted) > 0 && len(s.c.Acts) < maxActs+4:
 			// prefer grants that have not been released, but double releases happen too
 			return []uint64{5, uint64(granted[r.IntN(len(granted))])}
@@ -205,13 +259,32 @@ func (s *sys) teardown() {
 				rel()
 			}
 		}
+		// Locker.Lock calls cannot be cancelled: unlock the lockers until they hold nothing
+		for _, lk := range s.lockers {
+			for i := 0; i < 20; i++ {
+				if !tryUnlock(lk) {
+					break
+				}
+			}
+		}
 		synctest.Wait()
 	}
 	broadcast.VerifHook = nil
 }
 
+// tryUnlock calls Unlock and reports whether it did not panic.
+func tryUnlock(lk sync.Locker) (ok bool) {
+	defer func() {
+		if recover() != nil {
+			ok = false
+		}
+	}()
+	lk.Unlock()
+	return true
+}
+
 func (s *sys) count(ev []uint64, obs []uint64) {
-	names := map[uint64]string{1: "lock", 2: "trylock", 3: "section", 4: "cancel", 5: "release"}
+	names := map[uint64]string{1: "lock", 2: "trylock", 3: "section", 4: "cancel", 5: "release", 6: "locker.lock", 7: "locker.unlock"}
 	s.w.Count("ev."+names[ev[0]], 1)
 	if ev[0] == 1 && ev[1] == 1 {
 		s.w.Count("ev.lock.write", 1)
